@@ -33,10 +33,10 @@ DesignPost(e, c2, x) == /\ Chk("B:design-rows", c2 = x.cnt)
 DeltaFn(d) == [x \in {d[p][1] : p \in DOMAIN d} |-> (d[CHOOSE p \in DOMAIN d : d[p][1] = x])[2]]
 Apply(c, d) == IF Len(d) = 0 THEN c ELSE
   LET df == DeltaFn(d)
-      dom == {x \in DOMAIN c \cup DOMAIN df : IF x \in DOMAIN df THEN df[x] > 0 ELSE TRUE}
+      dom == {x \in DOMAIN c \cup DOMAIN df : IF x \in DOMAIN df THEN df[x] # NZero ELSE TRUE}
   IN [x \in dom |-> IF x \in DOMAIN df THEN df[x] ELSE c[x]]
 \* many changes / many rows: the harness adds the dense form cd (position x = lower bound of item x, 0 = no row)
-Dense(cd) == [x \in {k \in DOMAIN cd : cd[k] > 0} |-> cd[x]]
+Dense(cd) == [x \in {k \in DOMAIN cd : cd[k] # NZero} |-> cd[x]]
 NewRows(c, e) == IF Has(e, "cd") THEN Dense(e.cd) ELSE Apply(c, e.d)
 NoChange(e) == IF Has(e, "cd") THEN FALSE ELSE Len(e.d) = 0
 \* a logged list of rows <<item, est, lb, ub>> as the function item -> lb
@@ -45,10 +45,10 @@ RowsFn(e) == IF Has(e, "cd") THEN Dense(e.cd) ELSE RowsFnSmall(e.rows)
 \* the dense form, when present, is exactly the logged rows
 DenseOK(e) == IF Has(e, "cd")
               THEN /\ \A p \in DOMAIN e.rows : e.rows[p][1] \in DOMAIN e.cd /\ e.cd[e.rows[p][1]] = e.rows[p][3]
-                   /\ Cardinality({k \in DOMAIN e.cd : e.cd[k] > 0}) = Len(e.rows)
+                   /\ Cardinality({k \in DOMAIN e.cd : e.cd[k] # NZero}) = Len(e.rows)
               ELSE TRUE
 Distinct(s) == Cardinality(ToSet(s)) = Len(s)
-NonInc(s) == \A k \in 1..(Len(s) - 1) : s[k] >= s[k + 1]
+NonInc(s) == \A k \in 1..(Len(s) - 1) : NLeq(s[k + 1], s[k])
 
 \* cheap getters attached to every mutating event, against the model post-state o
 Scalars(e, o) ==
@@ -59,9 +59,9 @@ Scalars(e, o) ==
 \* rows <<item, est, lb, ub>> as returned, against the ground truth of o:  the statement's clauses on returned values
 RowsOK(rows, o, off) ==
   /\ Chk("doc-rows-distinct", Distinct([k \in DOMAIN rows |-> rows[k][1]]))
-  /\ Chk("bracket-rows", \A k \in DOMAIN rows : rows[k][3] <= Get(o.truth, rows[k][1]) /\ Get(o.truth, rows[k][1]) <= rows[k][4])
-  /\ Chk("estimate-between-bounds", \A k \in DOMAIN rows : rows[k][3] <= rows[k][2] /\ rows[k][2] <= rows[k][4])
-  /\ Chk("ub-lb=maximum-error", \A k \in DOMAIN rows : rows[k][4] - rows[k][3] = off)
+  /\ Chk("bracket-rows", \A k \in DOMAIN rows : NLeq(rows[k][3], Get(o.truth, rows[k][1])) /\ NLeq(Get(o.truth, rows[k][1]), rows[k][4]))
+  /\ Chk("estimate-between-bounds", \A k \in DOMAIN rows : NLeq(rows[k][3], rows[k][2]) /\ NLeq(rows[k][2], rows[k][4]))
+  /\ Chk("ub-lb=maximum-error", \A k \in DOMAIN rows : rows[k][4] = NAdd(rows[k][3], off))
   /\ Chk("descending-estimate", NonInc([k \in DOMAIN rows |-> rows[k][2]]))
 
 \* expected state carried by a replayed behaviour of the design model
@@ -125,23 +125,23 @@ TObs == IsEvent("Obs") /\ LET e == Log[l]  o == obj[e.id]  rf == RowsFn(e) IN
           \* published epsilon = 3.5 / 2^lg_max_map_size, logged as epsilon * 2^20
           /\ Chk("doc-epsilon", e.epsQ * 2^o.lgMax = 7 * 2^19 /\ e.epsQs = e.epsQ)
           \* direct queries <<item, est, lb, ub>> for a probe set that includes untracked and never-offered items
-          /\ Chk("bracket", \A k \in DOMAIN e.q : e.q[k][3] <= Get(o.truth, e.q[k][1]) /\ Get(o.truth, e.q[k][1]) <= e.q[k][4])
-          /\ Chk("estimate-between-bounds", \A k \in DOMAIN e.q : e.q[k][3] <= e.q[k][2] /\ e.q[k][2] <= e.q[k][4])
-          /\ Chk("ub-lb=maximum-error", \A k \in DOMAIN e.q : e.q[k][4] - e.q[k][3] = e.off)
+          /\ Chk("bracket", \A k \in DOMAIN e.q : NLeq(e.q[k][3], Get(o.truth, e.q[k][1])) /\ NLeq(Get(o.truth, e.q[k][1]), e.q[k][4]))
+          /\ Chk("estimate-between-bounds", \A k \in DOMAIN e.q : NLeq(e.q[k][3], e.q[k][2]) /\ NLeq(e.q[k][2], e.q[k][4]))
+          /\ Chk("ub-lb=maximum-error", \A k \in DOMAIN e.q : e.q[k][4] = NAdd(e.q[k][3], e.off))
           /\ Chk("doc-query=row", \A k \in DOMAIN e.q : LET x == e.q[k][1] IN
-                   IF x \in DOMAIN rf THEN \E p \in DOMAIN e.rows : e.rows[p] = e.q[k] ELSE e.q[k][3] = 0)
+                   IF x \in DOMAIN rf THEN \E p \in DOMAIN e.rows : e.rows[p] = e.q[k] ELSE e.q[k][3] = NZero)
           \* get_frequent_items(err_type, threshold)
           /\ \A k \in DOMAIN e.fr : LET f == e.fr[k]  got == ToSet(f.it) IN
                /\ Chk("doc-rows-distinct", Distinct(f.it))
                /\ Chk("descending-estimate", NonInc(f.est))
                /\ Chk("doc-row-values", \A p \in DOMAIN f.it : /\ f.it[p] \in DOMAIN o.cnt
                                                                 /\ f.lb[p] = o.cnt[f.it[p]]
-                                                                /\ f.ub[p] = f.lb[p] + e.off
-                                                                /\ f.lb[p] <= f.est[p] /\ f.est[p] <= f.ub[p])
+                                                                /\ f.ub[p] = NAdd(f.lb[p], e.off)
+                                                                /\ NLeq(f.lb[p], f.est[p]) /\ NLeq(f.est[p], f.ub[p]))
                /\ IF f.t = "NFN"
-                  THEN /\ Chk("no-false-negatives", {x \in DOMAIN o.truth : o.truth[x] > Max2(f.thr, e.off)} \subseteq got)
+                  THEN /\ Chk("no-false-negatives", {x \in DOMAIN o.truth : NLt(NMax(f.thr, e.off), o.truth[x])} \subseteq got)
                        /\ Chk("doc-nfn-set", got = FreqNFN(o, f.thr))
-                  ELSE /\ Chk("no-false-positives", \A x \in got : Get(o.truth, x) > f.thr)
+                  ELSE /\ Chk("no-false-positives", \A x \in got : NLt(f.thr, Get(o.truth, x)))
                        /\ Chk("doc-nfp-set", got = FreqNFP(o, f.thr))
                /\ Chk("doc-default-threshold", f.dflt => f.thr = e.off)
           /\ UNCHANGED <<obj, blob, lgc>>
